@@ -18,6 +18,26 @@ CLAIMED = {
         "This is the right level because the property quantifies over edit histories of a small abstract state.",
    ref="DESIGN.md §3 C15",
    technique="TLA+ state machine + TLC model checking; trace validation of real CRNHyperGraph histories by TLC"),
+ "C17": dict(
+   text="TLC enumerates all networks over 3 species (<=2 reactions, coefficients 0..2; quick: <=1 reaction plus unit-coefficient pairs) and the "
+        "outputs of build_S, incidence_matrix, stoichiometric_rank, left/right_nullspace, is_conservative, compute_conservativity, is_consistent "
+        "and summary recorded from the real code are judged by TLC against exact integer linear algebra written in TLA+ (Bareiss rank, "
+        "Stiemke certificates verified by TLC, TLC's own box search on the small domain, the alternative checked as a lemma); plus textbook and random 7x6 networks.",
+   ref="DESIGN.md §3 C17",
+   technique="TLA+ theory module (exact linear algebra) + TLC-enumerated inputs replayed into the code + TLC judging recorded outputs with verified certificates"),
+ "C19": dict(
+   text="TLC enumerates all networks over 3 species with <=3 unit-coefficient reactions and <=2 (quick: 1) reactions with coefficients 0..2; "
+        "DeficiencyAnalyzer outputs recorded from the real code are judged by TLC against the TLA+ definitions of complexes, linkage classes, "
+        "weak reversibility, exact rank and (linkage) deficiency; plus textbook and random 6x6 networks.",
+   ref="DESIGN.md §3 C19",
+   technique="TLA+ theory module + TLC-enumerated inputs replayed into the code + TLC judging recorded outputs"),
+ "C20": dict(
+   text="TLC enumerates all unit-coefficient networks over 3 species with <=3 reactions; find_siphons/find_traps, PetriNet.enabled/fire and "
+        "is_realizable (verdict and firing sequence, also after other queries on the same object) recorded from the real code are judged by TLC "
+        "against the TLA+ Petri semantics (minimal siphons/traps by subset enumeration, reachability closure); TLC also explores the extended "
+        "Petri nets natively (MC_Petri: non-negativity, state equation, agreement lemma).",
+   ref="DESIGN.md §3 C20",
+   technique="TLA+ Petri-net state machine model-checked by TLC + TLC judging recorded outputs/certificates of the real code"),
 }
 
 NOT_YET = "check not built yet (work in progress; planned with the same TLA+/TLC technique, see DESIGN.md §3)"
